@@ -819,3 +819,7 @@ def add_obligations(pack, ss, tier, pid='C03'):
     from contracts import fn_sequence as Q
     items += [(c,) for c in Q.jactriplet(pid)]
     run_contracts(pack, items)
+
+replay_pattern.real_system = True       # drives the real program on stock inputs: a crash inside repository code is a confirmed failure
+
+replay_system_j_update.real_system = True       # drives the real program on stock inputs: a crash inside repository code is a confirmed failure
